@@ -302,10 +302,16 @@ package keeper
 //@   invariant -1 <= rangeindex && rangeindex < len(state.Operators)
 //@   step[C18.oig.exact] unm["x/operator/types.OperatorInfo"](get(ctx, "operator", opInfoKey(bech32addr(state.Operators[rangeindex].OperatorAddress)))).Commission.UpdateTime ==
 //@        old(state.Operators[rangeindex].OperatorInfo.Commission.UpdateTime)
+// every exported consensus-key record is restored, whatever else the genesis says about its operator (an operator that
+// is in the middle of an opt-out keeps its key and its three lookups until the removal completes): the unchecked
+// setter is called for each record, for the record's own operator, chain and key.
+//@   before[C18.oig.keys] setOperatorConsKeyForChainIDUnchecked requires arg_chainID == detail.ChainID && arg_opAccAddr == operatorAddr &&
+//@        arg_consAddr == res_ToConsAddr_0 && arg_bz == res_MustMarshal_0
 //@ loop #2
 //@   invariant true
 //@ loop #3
 //@   invariant true
+//@   step[C18.oig.keys] defined(res_setOperatorConsKeyForChainIDUnchecked_0)
 
 // ---------------------------------------------------------------------------------------------
 // C06 (eligible = has a key, opted in, NOT JAILED): an operator is handed to the validator-set computation only if it is
